@@ -266,9 +266,17 @@ def r8_5(ctx):
     ctx.end()
 
 
+def r8_6(ctx):
+    """'alignment is preserved by resuming': shared with C15 -- a resumed run must not reset any log or live state."""
+    from .C15 import r15_1, r15_2
+    r15_1(ctx)
+    r15_2(ctx)
+
+
 def run(ctx):
     r8_1(ctx)
     r8_2(ctx)
     r8_3(ctx)
     r8_4(ctx)
     r8_5(ctx)
+    r8_6(ctx)
